@@ -80,3 +80,18 @@ func ParseDecimal(s string) int64
 
 // Settle lets background goroutines of the real code finish (native: a short sleep; symbolic: nothing).
 func Settle()
+
+// UntilCrash runs f as "the process": if a crash point fires inside (in any goroutine it
+// started), the process is gone and UntilCrash returns true.
+func UntilCrash(f func()) bool
+
+// CrashPoint is a point at which the process may be killed.
+func CrashPoint(site string)
+func SetCrashes(budget int)
+
+// ModelAllOpensSynced reports whether every badger.Open seen by the model had SyncWrites set.
+func ModelAllOpensSynced() bool
+
+// DeferGoroutines selects the sequential scheduling policy: false = a new goroutine runs at
+// once until it blocks or ends (default); true = it runs only once its creator blocks or ends.
+func DeferGoroutines(on bool)
